@@ -10,6 +10,7 @@ for d in seeded/*/; do
   name=$(basename "$d")
   prop=$(python3 -c "import json,sys; print(json.load(open('$d/meta.json'))['breaks_property'])" 2>/dev/null)
   [ -z "$prop" ] && prop=$(echo "$name" | cut -c1-3 | tr a-z A-Z)
+  if python3 -c "import json,sys; sys.exit(0 if 'retired' in json.load(open('$d/meta.json')) else 1)" 2>/dev/null; then echo "$name: retired (see meta.json)"; continue; fi
   if ! git -C "$REPO" apply "$PWD/$d/patch.diff" 2>/dev/null; then echo "$name: patch no longer applies to /repo HEAD"; continue; fi
   VERIF_SHRINK_BUDGET=0 ./check "$prop" quick > "/tmp/regress-$name.log" 2>&1; rc=$?
   git -C "$REPO" checkout -- .
